@@ -255,6 +255,22 @@ def enumerate_cases(tier):
         for tb in (True, False):
             yield {"kind": "analytic", "ops": ghz, "meas": [{"mp": "probs", "w": list(perm)}, {"mp": "probs", "w": [perm[0], 1, perm[1]]}], "wires": [0, 1, 2, 3, 4],
                    "dev_wires": [0, 1, 2, 3, 4], "tableau": tb, "check": True}
+    # multi-term observables whose terms list their factors in different wire orders (the term-wise Pauli strings have to follow each
+    # term's own order): all ordered letter pairs, sums / linear combinations, analytic and through var
+    P2 = lambda a, wa, b, wb: {"op": "prod", "operands": [{"op": a, "w": [wa]}, {"op": b, "w": [wb]}]}  # noqa: E731
+    letters = ("PauliX", "PauliY", "PauliZ")
+    mixed = []
+    for a in letters:
+        for b in letters:
+            if a == b:
+                continue
+            for c in letters:
+                t1, t2 = P2(a, 0, b, 1), P2(b, 1, c, 0)       # second term in reversed wire order
+                mixed.append({"mp": "expval", "obs": {"op": "sum", "operands": [t1, {"op": "s_prod", "c": 0.5, "base": t2}]}})
+                mixed.append({"mp": "expval", "obs": {"op": "lincomb", "coeffs": [1.0, -2.0, 0.25], "operands": [t2, t1, {"op": c, "w": [1]}]}})
+    for chunk in range(0, len(mixed), 9):
+        for extra in ([], [{"op": "CNOT", "p": [], "w": [1, 0]}]):
+            yield {"kind": "analytic", "ops": prep + extra, "meas": mixed[chunk:chunk + 9], "wires": [0, 1], "dev_wires": None, "tableau": True, "check": True}
     for g in gates:
         yield {"kind": "analytic", "ops": prep + [g], "meas": meas + singles + [{"mp": "state"}], "wires": [0, 1], "dev_wires": None, "tableau": True, "check": True}
         yield {"kind": "analytic", "ops": prep + [g], "meas": [{"mp": "state"}, {"mp": "density_matrix", "w": [1, 0]}, {"mp": "probs", "w": [1, 0]}],
